@@ -194,6 +194,24 @@ Definition dens_judge (g : geomT N) (db : N) (out : option (geomT N)) : option d
 (* robustness detector for the comparison with the float implementation (not part of the proved
    model): replays the loops and reports whether some decision was within rounding of flipping -
    the threshold test, or the choice of the farthest vertex *)
+(* a cheap square root for the detector: the argument is first cut to 64 leading bits of numerator
+   and denominator (relative error < 2^-62), an even power of two is split off, and qsqrt runs on
+   small numbers *)
+Definition qsqrt_fast (q : Q) : Q :=
+  match Qnum q with
+  | Zpos n =>
+      let m := Qden q in
+      let a := Z.max 0 (Z.log2 (Zpos n) - 64) in
+      let b0 := Z.max 0 (Z.log2 (Zpos m) - 64) in
+      let b := if Z.even (a - b0) then b0 else (b0 + 1)%Z in
+      let n' := Z.shiftr (Zpos n) a in
+      let m' := Z.to_pos (Z.max 1 (Z.shiftr (Zpos m) b)) in
+      let h := ((a - b) / 2)%Z in
+      let root := qsqrt (n' # m') in
+      Qred (if (0 <=? h)%Z then root * inject_Z (2 ^ h) else root / inject_Z (2 ^ (- h)))
+  | _ => 0
+  end.
+
 Section Robust.
   Variable t : Q.
   Variable delta : Q.   (* relative rounding allowance *)
@@ -202,15 +220,23 @@ Section Robust.
   Definition near_dist (d2v r : Q) : bool :=
     let eta := delta * r + noise in
     Qle_bool d2v ((r + eta) * (r + eta)) && (Qle_bool r eta || Qle_bool ((r - eta) * (r - eta)) d2v).
-  (* some candidate other than the winner comes within rounding of the maximum *)
-  Fixpoint scan_amb (a b : qv) (mids : list qv) (best sb : Q) (seen_winner : bool) : bool :=
+  (* some candidate other than the winner comes within rounding of the maximum; the bounds
+     lo = (sb - eta)^2 (none when sb <= eta) and hi = (sb + eta)^2 are computed once per scan *)
+  Fixpoint scan_amb (a b : qv) (mids : list qv) (best : Q) (lo : option Q) (hi : Q) (seen_winner : bool) : bool :=
     match mids with
     | [] => false
     | p :: r =>
         let d := pd2 a b p in
-        if Qeq_bool d best && negb seen_winner then scan_amb a b r best sb true
-        else near_dist d sb || scan_amb a b r best sb seen_winner
+        if Qeq_bool d best && negb seen_winner then scan_amb a b r best lo hi true
+        else (Qle_bool d hi && match lo with None => true | Some l => Qle_bool l d end)
+             || scan_amb a b r best lo hi seen_winner
     end.
+  Definition scan_amb_start (a b : qv) (mids : list qv) (best : Q) : bool :=
+    let sb := qsqrt_fast best in
+    let eta := Qred (delta * sb + noise) in
+    scan_amb a b mids best
+             (if Qle_bool sb eta then None else Some (Qred ((sb - eta) * (sb - eta))))
+             (Qred ((sb + eta) * (sb + eta))) false.
   (* the threshold test maxDist <= t is within rounding of flipping *)
   Definition thr_amb (best : Q) (mids : list qv) : bool :=
     match mids with
@@ -223,8 +249,9 @@ Section Robust.
     | S f =>
         match scan_max a b [] mids 0 None with
         | (best, bi) =>
-            let amb := thr_amb best mids
-                       || (negb (Qeq_bool best 0) && scan_amb a b mids best (qsqrt best) false) in
+            let bestr := Qred best in   (* same number, small representation *)
+            let amb := thr_amb bestr mids
+                       || (negb (Qeq_bool bestr 0) && scan_amb_start a b mids bestr) in
             if thr_ok t best then (amb, Some (b, after))
             else match bi with
                  | None => (amb, Some (b, after))
